@@ -313,6 +313,10 @@ check:
 		return []error{fmt.Errorf("%s: no YangType defined for %s %s", Source(td), source, td.Name)}
 	}
 	y := *td.YangType
+	// Patterns are appended to below: do not share the slices of the type
+	// this one is based on.
+	y.Pattern = append([]string(nil), y.Pattern...)
+	y.POSIXPattern = append([]string(nil), y.POSIXPattern...)
 
 	y.Base = td.Type
 	t.YangType = &y
